@@ -89,6 +89,21 @@ def relabel_case(draw):
 
 
 @st.composite
+def manystrata_relabel_case(draw):
+    """More than 2^14 distinct values that all occur equally often (ids seen 2-4 times, n 40 000 - 90 000) on either side, recoded
+    by order-changing maps: any selection among equally frequent values by code order shows as a changed score."""
+    case = dict(draw(gens.manystrata_pair()))
+    case['gen'] = dict(case['gen'], p=0.5)          # the other vector is random: strata differ in their distributions
+    case['swap'] = draw(st.sampled_from([True, True, False]))    # the kernel's strata loop runs over the second argument
+    order_changing = st.one_of(st.builds(lambda s: {'t': 'perm', 'k': s}, st.integers(0, 2**32 - 1)), st.just({'t': 'reverse'}),
+                               st.builds(lambda s: {'t': 'sparse', 'k': s}, st.integers(0, 2**32 - 1)))
+    case['fy'] = draw(order_changing)
+    case['gx'] = draw(order_changing)
+    case['c'] = draw(st.booleans())
+    return case
+
+
+@st.composite
 def selfrule_case(draw):
     return dict(draw(st.one_of(equal_sum_pair(), equal_sum_pair(), gens.small_pair(max_n=24), gens.lagged_pair())))
 
@@ -130,6 +145,8 @@ def oracle_relabel(case, rec):
     nonconst = len(set(Y.tolist())) > 1 and len(set(X.tolist())) > 1
     rec.nt(changed and nonconst, key=[Y.tolist(), X.tolist(), fy, gx, c] if len(X) <= 64 else case)
     rec.cls('corrected' if c else 'plain', 'f=' + fy['t'], 'g=' + gx['t'])
+    if 'gen' in case and case['gen'].get('fam') == 'manystrata':
+        rec.cls('many-equally-frequent-values')
     if int(np.sum(X - Y)) == 0 and not ident_before:
         rec.cls('equal-sum-nonidentical')
     if not (math.isfinite(a) and math.isfinite(b)) or abs(a - b) > t:
@@ -225,7 +242,7 @@ def oracle_pipeline(case, rec):
                             f'{s1[k]} -> {s2[k]}')
 
 
-ORACLES = {'C02/exception': oracle_selfrule, 'C02/relabel-invariance': oracle_relabel, 'C02/self-pair-rule': oracle_selfrule,
+ORACLES = {'C02/exception': oracle_selfrule, 'C02/many-strata': oracle_relabel, 'C02/relabel-invariance': oracle_relabel, 'C02/self-pair-rule': oracle_selfrule,
            'C02/pipeline-coding': oracle_pipeline}
 
 
@@ -233,6 +250,7 @@ def run(ctx):
     clauses = [
         Clause('C02/relabel-invariance', relabel_case, oracle_relabel, quick=2000, thorough=300000, quick_shards=4),
         Clause('C02/self-pair-rule', selfrule_case, oracle_selfrule, quick=1500, thorough=150000, quick_shards=3),
+        Clause('C02/many-strata', manystrata_relabel_case, oracle_relabel, quick=4, thorough=48, quick_shards=4, thorough_shards=16),
         Clause('C02/pipeline-coding', frame_case, oracle_pipeline, quick=300, thorough=24000, quick_shards=3),
     ]
     drive(ctx, clauses)
